@@ -68,6 +68,11 @@ where
 
     async fn send(self: Pin<&mut Self>, future: Fut) -> ConsumerState {
         let this = self.project();
+        // The limit has already been reached (always the case for `take(0)`):
+        // do not forward the item.
+        if this.count >= this.limit {
+            return ConsumerState::Break;
+        }
         *this.count += 1;
         let state = this.inner.send(future).await;
         if this.count >= this.limit {
@@ -79,6 +84,11 @@ where
 
     async fn progress(self: Pin<&mut Self>) -> ConsumerState {
         let this = self.project();
+        // Once the limit is reached no further item may be requested from the
+        // underlying stream; for `take(0)` that is before the first one.
+        if this.count >= this.limit {
+            return ConsumerState::Break;
+        }
         this.inner.progress().await
     }
 
